@@ -8,4 +8,4 @@ GROUPS = [
  dict(_F, name='dec_int24', entry='h_dec_int24', functions=['RES2INT24', 'float2int', 'RES2FLOAT'],
       what='every float |x|<256: RES2INT24(x) == round(2^23 x)'),
 ]
-META = {}
+META = {'cex': {'self': True, 'timeout': 600}}
